@@ -492,3 +492,93 @@ func VH_c04_fixpoint_update() {
 	vAssert(len(m.NLRI) == len(m2.NLRI) && len(m.WithdrawnRoutes) == len(m2.WithdrawnRoutes) && len(m.PathAttributes) == len(m2.PathAttributes), "element counts changed through serialise/parse")
 	vReach("end")
 }
+
+// C04 (MP_REACH next hops): every next-hop shape the constructor accepts for IPv6 unicast, labelled
+// and VPN families - one global address, or global plus link-local - serialises to bytes the decoder
+// accepts and that carry the same next hops and NLRI; Len() equals the bytes emitted.
+func VH_c04_mp_nexthops() {
+	g := netip.AddrFrom16([16]byte{0x20, 0x01, 0x0d, 0xb8, vU8("g"), 15: 1})
+	ll := netip.AddrFrom16([16]byte{0xfe, 0x80, 14: vU8("l"), 15: 2})
+	nhs := []netip.Addr{g}
+	if vBool("with_link_local") {
+		nhs = append(nhs, ll)
+	}
+	var fam Family
+	var n NLRI
+	pfx := netip.MustParsePrefix("2001:db8:1::/48")
+	switch vChoice("family", 3) {
+	case 0:
+		fam = RF_IPv6_UC
+		n, _ = NewIPAddrPrefix(pfx)
+	case 1:
+		fam = RF_IPv6_MPLS
+		n, _ = NewLabeledIPAddrPrefix(pfx, *NewMPLSLabelStack(vU32("label") & 0xfffff))
+	default:
+		fam = RF_IPv6_VPN
+		n, _ = NewLabeledVPNIPAddrPrefix(pfx, *NewMPLSLabelStack(vU32("label") & 0xfffff), NewRouteDistinguisherTwoOctetAS(vU16("rd_admin"), vU32("rd_assigned")))
+	}
+	vAssume(n != nil)
+	reach, err := NewPathAttributeMpReachNLRI(fam, []PathNLRI{{NLRI: n}}, nhs...)
+	vAssume(err == nil)
+	b, err := reach.Serialize()
+	vAssert(err == nil, "constructed MP_REACH cannot be serialised")
+	if err != nil {
+		return
+	}
+	vAssert(reach.Len() == len(b), "MP_REACH Len() differs from the bytes it emits")
+	d, _ := GetPathAttribute(b)
+	vAssert(d.DecodeFromBytes(b) == nil, "own MP_REACH encoding rejected by the decoder")
+	back, ok := d.(*PathAttributeMpReachNLRI)
+	if !ok {
+		return
+	}
+	vAssert(back.Nexthop == g, "the global next hop changed in the round trip")
+	if len(nhs) == 2 {
+		vAssert(back.LinkLocalNexthop == ll, "the link-local next hop was lost or changed in the round trip")
+	}
+	nb, _ := n.Serialize()
+	vAssert(len(back.Value) == 1, "MP_REACH NLRI lost in the round trip")
+	if len(back.Value) == 1 {
+		bb, _ := back.Value[0].NLRI.Serialize()
+		vAssert(c04eqBytes(nb, bb), "MP_REACH NLRI changed in the round trip")
+	}
+	b2, _ := back.Serialize()
+	vAssert(c04eqBytes(b, b2), "re-serialising the parsed MP_REACH is not a fixpoint")
+	vReach("end")
+}
+
+// C04 (AS-specific extended communities): two- and four-octet AS specific communities, transitive
+// or not, with symbolic sub-type, AS and local administrator: the type octet on the wire is the one
+// GetTypes reports and the value parses back to an equal community of the same kind.
+func VH_c04_ext_as_specific() {
+	trans := vBool("transitive")
+	sub := ExtendedCommunityAttrSubType(vU8("subtype"))
+	vAssume(sub == EC_SUBTYPE_ROUTE_TARGET || sub == EC_SUBTYPE_ROUTE_ORIGIN) // sub-types without a more specific registered decoder
+	var ec ExtendedCommunityInterface
+	four := vBool("four_octet_as")
+	if four {
+		ec = NewFourOctetAsSpecificExtended(sub, vU32("as"), vU16("local"), trans)
+	} else {
+		ec = NewTwoOctetAsSpecificExtended(sub, vU16("as16"), vU32("local32"), trans)
+	}
+	b, err := ec.Serialize()
+	vAssert(err == nil && len(b) == 8, "an AS-specific extended community does not serialise to 8 octets")
+	if err != nil || len(b) != 8 {
+		return
+	}
+	t, s := ec.GetTypes()
+	vAssert(b[0] == byte(t) && b[1] == byte(s), "the type / sub-type octets on the wire differ from GetTypes()")
+	back, err := ParseExtended(b)
+	vAssert(err == nil && back != nil, "own extended community encoding rejected")
+	if err != nil || back == nil {
+		return
+	}
+	if four {
+		x, ok := back.(*FourOctetAsSpecificExtended)
+		vAssert(ok && x.AS == ec.(*FourOctetAsSpecificExtended).AS && x.LocalAdmin == ec.(*FourOctetAsSpecificExtended).LocalAdmin && x.IsTransitive == trans, "a four-octet AS specific community does not parse back to itself")
+	} else {
+		x, ok := back.(*TwoOctetAsSpecificExtended)
+		vAssert(ok && x.AS == ec.(*TwoOctetAsSpecificExtended).AS && x.LocalAdmin == ec.(*TwoOctetAsSpecificExtended).LocalAdmin && x.IsTransitive == trans, "a two-octet AS specific community does not parse back to itself")
+	}
+	vReach("end")
+}
